@@ -171,3 +171,47 @@ func ZZ_C08_AtomicLate() {
 	}
 	vfAssert("stripe-still-delivers-after-late-free-race", l.batches > before)
 }
+
+// ZZ_C08_StaleView: one reader is preempted in the middle of an Add (between any two of its atomic
+// operations) while another reader performs a whole lap and more; afterwards the stripe must still deliver,
+// and the ring counters must stay ordered (head never overtakes tail).
+func ZZ_C08_StaleView() {
+	l := zzBufNew()
+	n0 := vfConfig("N0", 0)
+	for i := 0; i < n0; i++ {
+		l.add()
+	}
+	vfSetAtomicVisible(true)
+	vfSetPreemptions(vfConfig("PRE", 1))
+	Y := vfConfig("YADDS", 20)
+	done := make(chan int, 2)
+	go func() {
+		if pb := l.add(); pb != nil {
+			l.b.Free()
+		}
+		done <- 1
+	}()
+	go func() {
+		for i := 0; i < Y; i++ {
+			if pb := l.add(); pb != nil {
+				l.b.Free()
+			}
+		}
+		done <- 1
+	}()
+	<-done
+	<-done
+	vfSetAtomicVisible(false)
+	vfSetPreemptions(0)
+	vfReach("burst-over")
+	vfAssert("head-never-overtakes-tail", l.b.head.Load() <= l.b.tail.Load())
+	before := l.batches
+	delivered := 0
+	for i := 0; i < 49; i++ {
+		if pb := l.add(); pb != nil {
+			delivered += len(pb.Returned)
+			l.b.Free()
+		}
+	}
+	vfAssert("stripe-still-delivers-after-stale-view", l.batches > before && delivered >= 16)
+}
